@@ -254,6 +254,12 @@ def check(recipe, mode):
     elif f32:
         # the library default (rtol=atol=1e-6) is at the float32 round-off level: judge with the achievable bound
         pass
+    if p[1] % 3 == 0:
+        # the same operator object was inverted before, under a configuration that cannot solve anything (one CG step,
+        # no error raised): the inverse created below still uses ITS configuration
+        with Config(solver=lx.CG(rtol=0.5, atol=0.5, max_steps=1), solver_throw=False, solver_callback=ops._quiet_cb):
+            must_not_raise('earlier-inverse', lambda: A.I)
+        classes.append('inverted_before_under_another_config')
     if sv is not None and p[0] % 2 == 0:
         # nested blocks: the outer one sets the solver, the inner one only silences the callback (inherits the solver)
         with Config(solver=cfg['solver']):
